@@ -37,6 +37,24 @@ macro_rules! vcover {
     }};
 }
 
+/// Harnesses that serve several properties announce which part they are in, so that a panic raised by the code under
+/// test is attributed to that part's marker (`<section>.panic: <message>`) instead of to every property served.
+#[cfg(not(kani))]
+pub mod sect {
+    use std::sync::Mutex;
+    pub static CUR: Mutex<&'static str> = Mutex::new("");
+}
+#[cfg(not(kani))]
+pub fn section(s: &'static str) {
+    *sect::CUR.lock().unwrap_or_else(|e| e.into_inner()) = s;
+}
+#[cfg(kani)]
+pub fn section(_s: &'static str) {}
+#[cfg(not(kani))]
+pub fn current_section() -> &'static str {
+    *sect::CUR.lock().unwrap_or_else(|e| e.into_inner())
+}
+
 pub struct H {
     pub name: &'static str,
     /// properties this harness is a bounded stand-in for
